@@ -51,18 +51,22 @@ def gen_cases(tier, seed):
                     yield Case(1603, [opened, legacy, code], [payload], 'BaseConnection.send')
     yield Case(5015, [0], [], 'client context manager, normal exit')
     yield Case(5015, [1], [], 'client context manager, exit by exception')
+    yield Case(5015, [0, 1], [], 'client context manager, link dropped inside, normal exit')
+    yield Case(5015, [1, 1], [], 'client context manager, link dropped inside, exit by exception')
 
 
 def worker_init():
     cl.setup()
 
 
-def ctx_manager(raises):
+def ctx_manager(raises, dropped=False):
     client, conn, clk = cl.make_client(cl.DEFAULT_CFG)
     conn.opened = False
     try:
         with client:
             opened_inside = conn.is_open()
+            if dropped:
+                conn.opened = False     # the link went down: the connection reports itself as not open, its resources still need close()
             if raises:
                 raise KeyError('boom')
     except KeyError:
@@ -117,7 +121,7 @@ def impl(c):
     if c.entry == 1603:
         return base_send(c.ints[0], c.ints[1], c.ints[2], c.blobs[0])
     if c.entry == 5015:
-        return ctx_manager(c.ints[0] == 1)
+        return ctx_manager(c.ints[0] == 1, len(c.ints) > 1 and c.ints[1] == 1)
     return cl.run_history_case(c)
 
 
